@@ -121,6 +121,13 @@ public:
             return;
         }
 
+        // compare as floating point first: converting a quotient that does not fit into
+        // `std::size_t` (or is NaN) is undefined and wraps into the range for far-away points
+        if (!(shifted_x / parameters.bin_size_x() < T(parameters.bins_x())))
+        {
+            return;
+        }
+
         std::size_t const bin_x = shifted_x / parameters.bin_size_x();
 
         if (bin_x >= parameters.bins_x())
@@ -172,11 +179,25 @@ public:
             return;
         }
 
+        // compare as floating point first: converting a quotient that does not fit into
+        // `std::size_t` (or is NaN) is undefined and wraps into the range for far-away points
+        if (!(shifted_x / parameters.bin_size_x() < T(parameters.bins_x())))
+        {
+            return;
+        }
+
         std::size_t const bin_x = shifted_x / parameters.bin_size_x();
 
         if (bin_x >= parameters.bins_x())
         {
             // point is right of the range that we are binning
+            return;
+        }
+
+        // compare as floating point first: converting a quotient that does not fit into
+        // `std::size_t` (or is NaN) is undefined and wraps into the range for far-away points
+        if (!(shifted_y / parameters.bin_size_y() < T(parameters.bins_y())))
+        {
             return;
         }
 
